@@ -58,7 +58,9 @@ pub mod lab {
     pub const STALE_PURGED_BY_DEATH: u32 = 41;
     pub const KF_PREDICATE: u32 = 42;
     pub const TABLE_ORDER_SEEN: u32 = 43;
-    pub const NAMES: [&str; 44] = [
+    pub const CLONE_PANIC: u32 = 44;
+    pub const UNINIT_ADOPT: u32 = 45;
+    pub const NAMES: [&str; 46] = [
         "group>=2_collected",
         "group>=3_collected",
         "zero_count_death_with_records",
@@ -103,6 +105,8 @@ pub mod lab {
         "stale_record_purged_by_death",
         "known_finding_predicate",
         "table_order_observed",
+        "payload_clone_panicked_in_make_mut",
+        "adopted_before_assume_init",
     ];
 }
 
@@ -144,6 +148,9 @@ pub struct Cfg {
     /// handles stored in the value (a hand-written Clone), instead of copying
     /// them (a derived Clone)
     pub shallow_clone: bool,
+    /// 0: Clone works; 1: `Node::clone` panics at once; 2: it panics after it
+    /// has cloned the stored handles
+    pub clone_panics: u8,
 }
 
 pub struct World {
@@ -285,10 +292,11 @@ impl LoggedWeak {
 
 pub struct EndMarker(pub Cell<Oid>);
 
-/// Over-aligned on purpose: the value then does not start right after the
+/// Over-aligned on purpose (32: the allocation header is 56 bytes, so the value
+/// offset 64 is neither the header size nor the alignment): the value then does not start right after the
 /// header of the allocation, which is the non-trivial case for everything that
 /// converts between value pointers and allocation pointers (raw round trips).
-#[repr(align(64))]
+#[repr(align(32))]
 pub struct Node {
     pub id: Cell<Oid>,
     pub canary: Cell<u64>,
@@ -329,6 +337,12 @@ impl Clone for Node {
         let _t = track_off();
         let _p = PhaseGuard(set_phase(Phase::Harness));
         let wd = w();
+        // fault injection: the payload's Clone panics before producing anything
+        if wd.cfg.clone_panics == 1 {
+            wd.panic_fired.set(true);
+            label(lab::CLONE_PANIC);
+            std::panic::panic_any(crate::interp::Injected);
+        }
         let new_id = wd.model.borrow_mut().new_obj(0, 0, !self.dscript.is_empty());
         let n = Node::new(new_id, self.dscript.clone());
         let shallow = wd.cfg.shallow_clone;
@@ -348,6 +362,13 @@ impl Clone for Node {
             lw.owner.set(new_id);
             n.weaks.borrow_mut().push(lw);
             wd.model.borrow_mut().objs[new_id as usize].wslots.push(s.target);
+        }
+        if wd.cfg.clone_panics == 2 {
+            // the partially built clone is dropped by the unwind: it is a loose
+            // value (never placed in an allocation)
+            wd.panic_fired.set(true);
+            label(lab::CLONE_PANIC);
+            std::panic::panic_any(crate::interp::Injected);
         }
         wd.makemut_new.set(new_id);
         if let Some((_ri, old)) = wd.makemut.get() {
